@@ -11,15 +11,15 @@ import (
 )
 
 type Val struct {
-	T    types.Type // Go type when known (nil for purely logical values)
-	S    string     // SMT sort
-	X    string     // SMT term
-	Root string     // pointer values: heap key of the cell pointed into ("" = pointee type's own key)
-	Path []string   // pointer values: interior field path inside that cell
-	PT   types.Type // pointer values with Root set: Go type of the root cell
-	Lit  *string    // known string literal
-	Fn   *Closure   // function values known statically
-	Guard string    // lock key guarding the object this value designates (maps read from guarded fields)
+	T     types.Type // Go type when known (nil for purely logical values)
+	S     string     // SMT sort
+	X     string     // SMT term
+	Root  string     // pointer values: heap key of the cell pointed into ("" = pointee type's own key)
+	Path  []string   // pointer values: interior field path inside that cell
+	PT    types.Type // pointer values with Root set: Go type of the root cell
+	Lit   *string    // known string literal
+	Fn    *Closure   // function values known statically
+	Guard string     // lock key guarding the object this value designates (maps read from guarded fields)
 }
 
 type Closure struct {
@@ -50,27 +50,27 @@ type Loc struct {
 }
 
 type State struct {
-	env      map[types.Object]Val
-	names    map[string]types.Object
-	bound    map[string]Val
-	heap     map[string]string
-	pc       []string
-	old      *State
-	births   int
-	trN      string            // number of abstract calls so far
-	trCols   map[string]string // trace columns: name -> (Array Int X) term
-	ghost    map[string]Val
-	iterK    string // current canonical-loop index, for automatic trace tagging
-	retVals  []Val
-	panicked bool
-	defers   []*ast.DeferStmt
-	locks    map[string]string // ghost: mutex key -> 0 (free), 1 (read-locked), 2 (write-locked)
-	panicVal string            // value of the panic in flight ("" = none)
-	rangeKey, rangeKeySort string // key of the innermost map-range iteration (ghost tagging of abstract calls)
-	rangeOrd int
-	recoverDepth int
-	iterHead *State // state at the head of the current loop iteration (for prev())
-	loopExit map[int]*State // state in which loop N was left through its guard (for atexit())
+	env                    map[types.Object]Val
+	names                  map[string]types.Object
+	bound                  map[string]Val
+	heap                   map[string]string
+	pc                     []string
+	old                    *State
+	births                 int
+	trN                    string            // number of abstract calls so far
+	trCols                 map[string]string // trace columns: name -> (Array Int X) term
+	ghost                  map[string]Val
+	iterK                  string // current canonical-loop index, for automatic trace tagging
+	retVals                []Val
+	panicked               bool
+	defers                 []*ast.DeferStmt
+	locks                  map[string]string // ghost: mutex key -> 0 (free), 1 (read-locked), 2 (write-locked)
+	panicVal               string            // value of the panic in flight ("" = none)
+	rangeKey, rangeKeySort string            // key of the innermost map-range iteration (ghost tagging of abstract calls)
+	rangeOrd               int
+	recoverDepth           int
+	iterHead               *State         // state at the head of the current loop iteration (for prev())
+	loopExit               map[int]*State // state in which loop N was left through its guard (for atexit())
 }
 
 func (s *State) clone() *State {
@@ -146,34 +146,35 @@ type OblCase struct {
 
 // Fx is the per-function verification context.
 type Fx struct {
-	v        *Verifier
-	pkg      *Pkg
-	d        *Decls
-	spec     *FuncSpec
-	key      string
-	decl     *ast.FuncDecl
-	lit      *ast.FuncLit
-	sig      *types.Signature
-	obls     []*Obligation
-	loopOrd  map[ast.Node]int
-	litOrd   map[*ast.FuncLit]int
-	results  []types.Object
-	callOrd  map[string]int
-	heapSort map[string]string
-	dropped  map[string]bool
-	assumed  map[string]bool
-	depth    int
-	paths    int
-	inSpec   int
-	errGlobals []string
-	oblSeen  map[string]int
-	inQuant  int
-	rootSpec *FuncSpec // contract of the function under verification (fx.spec changes while inlining)
-	inlineName string  // name of the function whose body is being inlined
+	selectComm   bool // executing the communication of a select case (it does not block on its own)
+	v            *Verifier
+	pkg          *Pkg
+	d            *Decls
+	spec         *FuncSpec
+	key          string
+	decl         *ast.FuncDecl
+	lit          *ast.FuncLit
+	sig          *types.Signature
+	obls         []*Obligation
+	loopOrd      map[ast.Node]int
+	litOrd       map[*ast.FuncLit]int
+	results      []types.Object
+	callOrd      map[string]int
+	heapSort     map[string]string
+	dropped      map[string]bool
+	assumed      map[string]bool
+	depth        int
+	paths        int
+	inSpec       int
+	errGlobals   []string
+	oblSeen      map[string]int
+	inQuant      int
+	rootSpec     *FuncSpec // contract of the function under verification (fx.spec changes while inlining)
+	inlineName   string    // name of the function whose body is being inlined
 	namedResults bool
-	siteOrd  map[ast.Node]int
-	opaqueRet map[string]Val
-	defs     map[string]string // shared sub-terms: constant -> defining term
+	siteOrd      map[ast.Node]int
+	opaqueRet    map[string]Val
+	defs         map[string]string // shared sub-terms: constant -> defining term
 }
 
 func (fx *Fx) note(drop string) { fx.dropped[drop] = true }
